@@ -18,14 +18,15 @@ type Human implements Node { id: ID! name(upper: Boolean): String! friends: [Hum
 input TagIn { label: String weight: Int }
 input HumanIn { name: String tags: [TagIn!] }
 type Query { node(id: ID!): Node getHumans: [Human!]! me: Human findHumans(filter: [HumanIn!], grid: [[Int]], first: Int): [Human!]! maybe: [Human] nobody: [Human] }
-type Mutation { saveHuman(name: String!): Human! }
+type SavePayload { human: Human query: Query }
+type Mutation { saveHuman(name: String!): Human! saveBoth(name: String!): SavePayload }
 `
 const vSB = `
 interface Node { id: ID! }
 type Human implements Node { id: ID! phone(cc: Int = 7): String! fax(cc: Int!): String pets: [Animal!]! }
 type Animal { name: String! owner: Human! kind: Kind }
 enum Kind { CAT DOG }
-type Query { node(id: ID!): Node getAnimals: [Animal!]! }
+type Query { node(id: ID!): Node getAnimals: [Animal!]! phoneCount(first: Int): Int }
 type Mutation { savePhone(p: String!): Human! }
 `
 
@@ -75,6 +76,8 @@ func vReadmeWorld(k int) *vWorld {
 	w.roots["Query.getAnimals"] = []vRef{{"Animal", "a1"}}
 	w.roots["Mutation.saveHuman"] = vRef{"Human", "h2"}
 	w.roots["Mutation.savePhone"] = vRef{"Human", "h1"}
+	w.ents["p1"] = vEnt{"__typename": "SavePayload", "id": "p1", "human": vRef{"Human", "h2"}, "query": vRootRef("Query")}
+	w.roots["Mutation.saveBoth"] = vRef{"SavePayload", "p1"}
 	return w
 }
 
@@ -163,6 +166,12 @@ func vReadmeOps() []vOp {
 			return map[string]interface{}{"k": verifInt("var_k", 0, 9)}
 		}},
 		{q: `query($c: Int = 4) { me { phone(cc: $c) } }`, vars: func() map[string]interface{} { return map[string]interface{}{"c": verifInt("var_c", 0, 9)} }},
+		// a payload that hands out the Query type again (the Relay convention): what is read through it at
+		// another service is a plain follow-up query inserted below the payload
+		{q: `mutation Both($k: Int) { saveBoth(name: "x") { human { name phone } query { me { name phone } phoneCount(first: $k) } } }`, opName: "Both", vars: func() map[string]interface{} {
+			return map[string]interface{}{"k": verifInt("var_k", 0, 9)}
+		}},
+		{q: `mutation { saveBoth(name: "x") { query { phoneCount getAnimals { name } } } }`},
 	}
 }
 
